@@ -1427,7 +1427,8 @@ func (l *zzC06Live) sameList(tab []zzC06Entry) (err error) {
 
 	for i := range tab {
 		w := l.rw(&tab[i])
-		if got[i].Domain != strings.ToLower(w.Domain) || got[i].Answer != w.Answer {
+		// (the letter case in which a canonical name is stored is immaterial)
+		if got[i].Domain != strings.ToLower(w.Domain) || !strings.EqualFold(got[i].Answer, w.Answer) {
 			return fmt.Errorf("list differs at %d: %v, want %v", i, got[i], w)
 		}
 	}
